@@ -107,6 +107,9 @@ func TestProp(t *testing.T) {
 			rep.Floor("session_cookie_stripped_spelling_"+sp, 10)
 		}
 		rep.Floor("other_cookies_compared", 300)
+		for _, gs := range []string{"many", "one-huge", "joined-length-around-4096", "joined-length-around-8192"} {
+			rep.Floor("forwarded_authenticated_group_list_"+gs, 3)
+		}
 	}
 	if rep.Finish() == "violated" {
 		t.Fatalf("C03 violated")
@@ -156,6 +159,34 @@ func runCase(rep *vh.Report, env vh.Env, stacks []*stackKind, i int) {
 	sess := ps.Session(sk.host, email, []string{"g1", "g-" + randTok(r, 3)})
 	if r.Intn(3) == 0 {
 		sess.Groups = nil
+	}
+	// long group lists: the header must carry the session's value whatever its size (a value capped,
+	// truncated or split "because upstream servers reject long header lines" is not the session's value)
+	groupShape := "short"
+	if sk.groups == nil && r.Intn(8) == 0 {
+		switch r.Intn(4) {
+		case 0:
+			groupShape = "many"
+			sess.Groups = nil
+			for g, n := 0, 120+r.Intn(300); g < n; g++ {
+				sess.Groups = append(sess.Groups, fmt.Sprintf("grp-%03d-%s", g, randTok(r, 2+r.Intn(10))))
+			}
+		case 1:
+			groupShape = "one-huge"
+			sess.Groups = []string{"huge-" + strings.Repeat(randTok(r, 5), 450+r.Intn(400))}
+		case 2:
+			groupShape = "joined-length-around-4096"
+			sess.Groups = nil
+			for len(strings.Join(sess.Groups, ",")) < 4090+r.Intn(12) {
+				sess.Groups = append(sess.Groups, "g"+randTok(r, 1+r.Intn(6)))
+			}
+		default:
+			groupShape = "joined-length-around-8192"
+			sess.Groups = nil
+			for len(strings.Join(sess.Groups, ",")) < 8186+r.Intn(12) {
+				sess.Groups = append(sess.Groups, "g"+randTok(r, 1+r.Intn(6)))
+			}
+		}
 	}
 	if emptyToken {
 		sess.AccessToken = ""
@@ -372,6 +403,9 @@ func runCase(rep *vh.Report, env vh.Env, stacks []*stackKind, i int) {
 	site := "stack=" + sk.name
 	if authenticated {
 		rep.Count("forwarded_authenticated", 1)
+		if dueKind == "none" {
+			rep.Count("forwarded_authenticated_group_list_"+groupShape, 1)
+		}
 		if dueKind != "none" {
 			rep.Count("forwarded_after_due_"+dueKind, 1)
 		}
@@ -391,6 +425,8 @@ func runCase(rep *vh.Report, env vh.Env, stacks []*stackKind, i int) {
 				cls := "differs-from-session"
 				if dueKind != "none" {
 					cls = "differs-from-session-after-due-" + dueKind
+				} else if name == "X-Forwarded-Groups" && groupShape != "short" {
+					cls = "differs-from-session group-list=" + groupShape
 				}
 				for _, v := range g {
 					if strings.Contains(v, "evil-") {
